@@ -50,7 +50,8 @@ def key_pool(b, rng):
     pkl = [picklemap(serializer='pickle')(1, x=2), picklemap(serializer='dill')('a'), picklemap(serializer='pickle')(3)]
     ints = [1, 7, -3, 0]
     hostile = ['a-b', 'a_b', '1', '.I_0123456789abcdef0123456789abcdef', 'RANK_0', 'K_means', 'xK_K_y',
-               'P' * 215 + 'a', 'P' * 215 + 'b']       # long keys that differ only at the very end
+               'P' * 215 + 'a', 'P' * 215 + 'b',       # long keys that differ only at the very end
+               'Q' * 246 + 'a', 'Q' * 246 + 'b']       # ... and ones just below the 255-byte limit of a directory entry name
     if k in ('dict_archive', 'null'):
         return raw + strs + hexs + pkl + ints + hostile + [None, 2.5]
     if is_json(b):
@@ -97,6 +98,10 @@ def make_value(v):
         return eval('lambda x: x + %d' % n)
     if isinstance(v, dict) and '__padded__' in v:
         return padded_value(*v['__padded__'])
+    if isinstance(v, dict) and '__noisy__' in v:
+        # text that compresses only by half: its compressed form is still larger than a 1 MiB block
+        import random as _r
+        return _r.Random(v['__noisy__']).randbytes(1600000).hex()
     return v
 
 
@@ -219,7 +224,7 @@ def gen_case_c03(rng):
     keys = rng.sample(pool, min(len(pool), rng.choice([3, 5, 8])))
     longk = [k for k in pool if isinstance(k, str) and len(k) > 200]
     if len(longk) >= 2 and rng.random() < 0.25:
-        keys = [k for k in keys if k not in longk] + longk[:2]
+        keys = [k for k in keys if k not in longk] + (longk[2:4] if (len(longk) >= 4 and rng.random() < 0.5) else longk[:2])
     if b['kind'] == 'dir' and not is_source(b) and rng.random() < 0.04:
         keys.append(rng.choice(['data/x.csv', '/abs/path', "('a/b',)"]))     # path-like keys (recorded finding)
     if b['kind'] == 'dir' and not is_source(b) and not is_json(b) and rng.random() < 0.04:
@@ -1079,8 +1084,10 @@ def run_shard(prop, tier, seed, shard, nshards, opts):
         for j, b in enumerate(sized):
             if j % nshards != shard:
                 continue
-            for T in (1 << 20, 1 << 16):
-                pv = {'__padded__': [T, b.get('protocol')]}
+            for T in (1 << 20, 1 << 16, 0):
+                if T == 0 and not b.get('compression'):
+                    continue
+                pv = {'__padded__': [T, b.get('protocol')]} if T else {'__noisy__': 7}
                 ops = [['set', 'small', 1], ['set', 'blk', pv], ['get', 'blk'], ['len'], ['keys', 'blk'], ['get', 'small'],
                        ['set', 'blk2', pv], ['pop', 'blk'], ['get', 'blk2'], ['len']]
                 case = {'backend': b, 'cached': j % 2 == 1, 'ops': ops, 'seed': 1, 'directed': True}
